@@ -2,16 +2,96 @@
 from c02 import crosscheck as _cc, case_failures, history_failures
 
 
+def finder_region_failures(seed):
+    """the public finder with a Region object as mask: the caller's region must come back covering the same sky, at its own
+    resolution, and a second image elsewhere must still see it"""
+    import os
+    import random
+    import shutil
+    import tempfile
+    import logging
+    import numpy as np
+    from astropy.io import fits
+    from AegeanTools import fitting
+    from AegeanTools.regions import Region
+    from AegeanTools.source_finder import SourceFinder
+    log = logging.getLogger("c11")
+    log.addHandler(logging.NullHandler())
+    log.propagate = False
+    rnd = random.Random(seed)
+    K = 1 / (2 * np.sqrt(2 * np.log(2)))
+    tmp = tempfile.mkdtemp(prefix="c11_")
+    out = []
+    try:
+        fields = [(rnd.uniform(20, 340), rnd.uniform(-50, 50))]
+        fields.append(((fields[0][0] + 25.0) % 360, fields[0][1] + 5.0))
+        region = Region(maxdepth=rnd.choice([12, 13, 14]))      # cells of 51, 26, 13 arcsec
+        for ra, dec in fields:
+            region.add_circles(np.radians(ra), np.radians(dec), np.radians(0.025))    # 9 pixels
+        view0 = set(int(v) for v in region.get_demoted()) if seed % 2 else None
+        pix0 = {d: set(int(x) for x in v) for d, v in region.pixeldict.items()}
+        fresh = Region(maxdepth=region.maxdepth)
+        for d_, px in pix0.items():
+            if px:
+                fresh.add_pixels(np.array(sorted(px)), d_)
+        want_view = set(int(v) for v in fresh.get_demoted())
+        for k, (ra, dec) in enumerate(fields):
+            shape = (60, 60)
+            h = fits.Header()
+            h['NAXIS'], h['NAXIS1'], h['NAXIS2'] = 2, shape[1], shape[0]
+            h['CTYPE1'], h['CTYPE2'], h['CRVAL1'], h['CRVAL2'] = 'RA---SIN', 'DEC--SIN', ra, dec
+            h['CDELT1'], h['CDELT2'], h['CRPIX1'], h['CRPIX2'] = -10 / 3600, 10 / 3600, 30.0, 30.0
+            h['BMAJ'], h['BMIN'], h['BPA'] = 50 / 3600, 40 / 3600, 0.0
+            R_, C_ = np.mgrid[0:shape[0], 0:shape[1]]
+            img = np.random.default_rng(seed + k).normal(scale=0.02, size=shape)
+            # one source at the field centre (inside the region) and one 20 pixels away (outside)
+            img += fitting.elliptical_gaussian(R_, C_, 2.0, 29.0, 29.0, 5 * K, 4 * K, 0.0)
+            img += fitting.elliptical_gaussian(R_, C_, 2.0, 9.0, 47.0, 5 * K, 4 * K, 0.0)
+            path = os.path.join(tmp, "f%d.fits" % k)
+            fits.PrimaryHDU(img.astype(np.float32), header=h).writeto(path)
+            rows = SourceFinder(log=log).find_sources_in_image(path, rms=0.02, bkg=0.0, cores=1, mask=region)
+            if len(rows) != 1:
+                out.append(("accepted_island_has_an_own_pixel_inside_region",
+                            "field %d (of two masked with the same Region object): %d components, expected the one source inside the region" % (k, len(rows))))
+                break
+        got_view = set(int(v) for v in region.get_demoted())
+        if got_view != want_view or region.maxdepth != fresh.maxdepth:
+            out.append(("load_globals.the_callers_region_object_is_not_modified",
+                        "the caller's region covers %d deepest-level pixels after the runs, %d before" % (len(got_view), len(want_view))))
+    finally:
+        shutil.rmtree(tmp, ignore_errors=True)
+    return out[:2]
+
+
 def crosscheck(p):
     r = _cc(p, with_region=True)
     for f in r["failures"]:
         f["replay_func"] = "replay_region"
+    seen = set(f["label"] for f in r["failures"])
+    for i in range(2 if p.get("tier") != "thorough" else 10):
+        r["evaluations"] = r.get("evaluations", 0) + 1
+        sd = p.get("seed", 0) * 101 + i
+        try:
+            fl = finder_region_failures(sd)
+        except Exception as e:
+            fl = [("finder_with_region_completes", repr(e))]
+        for lab, what in fl:
+            if lab not in seen:
+                seen.add(lab)
+                r["failures"].append({"label": lab, "input": {"finder_seed": sd}, "what": what, "replay_func": "replay_region",
+                                      "replay_payload": {"finder": [sd]}})
     return r
 
 
 def replay_region(p):
     cases = p.get("cases") or ([] if p.get("histories") else [[s, True] for s in range(400)])
     bad = []
+    if p.get("finder"):
+        for s in p["finder"]:
+            fl = finder_region_failures(s)
+            if fl:
+                bad.append({"finder_seed": s, "what": fl})
+        return {"fails": bool(bad), "observed": bad, "replay_func": "replay_region", "replay_payload": {"finder": p["finder"]}}
     for s in p.get("histories") or []:
         fl = history_failures(s)
         if fl:
